@@ -532,6 +532,28 @@ func c16cGenAll(r *verifh.Rng) []verifh.Section {
 		}
 		secs = append(secs, verifh.Section{Cfg: fmt.Sprintf("s=ctake limit=0 procs=%d", c16cProcs(r)), Ops: g.ops})
 	}
+	// ---- Cache.Take, first loads: several goroutines walk over the SAME keys in the same order, nothing is deleted and
+	// no load fails, so every key must be loaded exactly once.  Each key is one window for a Take that missed before
+	// another flight stored the value and enters the barrier after that flight has ended (the re-check inside the
+	// barrier is what keeps it from loading again).
+	for i, n := 0, verifh.Scale(150, 900); i < n; i++ {
+		g := &c16cGen{r: r.Fork()}
+		r := g.r
+		gor := r.Pick(3, 4, 6, 8)
+		keys := r.Pick(3, 4, 6, 8)
+		ly := r.Pick(0, 0, 1, 2)
+		for t := 0; t < gor; t++ {
+			for k := 0; k < keys; k++ {
+				g.id++
+				g.ops = append(g.ops, fmt.Sprintf("c id=%d g=%d y=%d op=take k=%d v=%d f=0 ly=%d", g.id, t, r.Pick(0, 0, 0, 1), k, 1000+g.id, r.Pick(ly, ly, 0, 1)))
+			}
+		}
+		g.add(-1, "op=stats")
+		for k := 0; k < keys; k++ {
+			g.add(-1, "op=get k=%d", k)
+		}
+		secs = append(secs, verifh.Section{Cfg: fmt.Sprintf("s=ctake limit=0 procs=%d first=1", c16cProcs(r)), Ops: g.ops})
+	}
 	return secs
 }
 
